@@ -8,6 +8,7 @@ import (
 	"crypto/tls"
 	"encoding/base64"
 	"encoding/binary"
+	"errors"
 	"fmt"
 	"io"
 	"net"
@@ -21,6 +22,8 @@ import (
 	"time"
 
 	"connectrpc.com/conformance/internal"
+	connect "connectrpc.com/connect"
+	"connectrpc.com/conformance/internal/gen/proto/go/connectrpc/conformance/v1/conformancev1connect"
 	"connectrpc.com/conformance/internal/compression"
 	conformancev1 "connectrpc.com/conformance/internal/gen/proto/go/connectrpc/conformance/v1"
 	"golang.org/x/net/http2"
@@ -31,6 +34,7 @@ import (
 func init() {
 	verifKinds["c17.writer"] = verifC17Writer
 	verifKinds["c17.live"] = verifC17Live
+	verifKinds["c17.cache"] = verifC17Cache
 }
 
 // ---- case decoding (same shapes as harness/C17/internal) ----
@@ -346,6 +350,161 @@ func verifC17Live(args []vsx) vsx {
 	// keys that were only announced in the Trailer header carry no value
 	trls := verifC17HeaderSx(resp.Trailer, func(k string, vv []string) bool { return len(vv) == 0 })
 	return vL(vI(0), vInt(resp.StatusCode), hdrs, trls, vB(got), vBool(date))
+}
+
+// ---- kind 3: rawResponseRecorder.WrapStreamingHandler / firstReqCachingStream over a scripted stream ----
+
+// a connect.StreamingHandlerConn whose Receive outcomes are scripted: (0 code) an error (0 = io.EOF),
+// (1 #data raw) a request message with that request data, with or without a raw response in its
+// response definition; after the script io.EOF for ever
+type verifC17Conn struct {
+	proc   string
+	script []vsx
+	calls  int
+	errs   map[int64]error
+}
+
+func (c *verifC17Conn) Spec() connect.Spec               { return connect.Spec{Procedure: c.proc, StreamType: connect.StreamTypeBidi} }
+func (c *verifC17Conn) Peer() connect.Peer               { return connect.Peer{} }
+func (c *verifC17Conn) RequestHeader() http.Header       { return http.Header{} }
+func (c *verifC17Conn) Send(any) error                   { return nil }
+func (c *verifC17Conn) ResponseHeader() http.Header      { return http.Header{} }
+func (c *verifC17Conn) ResponseTrailer() http.Header     { return http.Header{} }
+func (c *verifC17Conn) errOf(code int64) error {
+	if code == 0 {
+		return io.EOF
+	}
+	if c.errs[code] == nil {
+		c.errs[code] = connect.NewError(connect.CodeInternal, fmt.Errorf("verif-%d", code))
+	}
+	return c.errs[code]
+}
+func (c *verifC17Conn) codeOf(err error) int64 {
+	if err == io.EOF {
+		return 0
+	}
+	for k, e := range c.errs {
+		if e == err {
+			return k
+		}
+	}
+	return -1
+}
+
+func (c *verifC17Conn) Receive(dest any) error {
+	c.calls++
+	if len(c.script) == 0 {
+		return io.EOF
+	}
+	x := c.script[0]
+	c.script = c.script[1:]
+	if x.l[0].i == 0 {
+		return c.errOf(x.l[1].i)
+	}
+	msg, ok := dest.(proto.Message)
+	if !ok {
+		return fmt.Errorf("verif: not a message")
+	}
+	proto.Reset(msg)
+	proto.Merge(msg, verifC17StreamMsg(c.proc, x.l[1].b, x.l[2].boolean()))
+	return nil
+}
+
+func verifC17StreamMsg(proc string, data []byte, raw bool) proto.Message {
+	var rr *conformancev1.RawHTTPResponse
+	if raw {
+		rr = &conformancev1.RawHTTPResponse{StatusCode: 201}
+	}
+	data = append([]byte{}, data...)
+	switch proc {
+	case conformancev1connect.ConformanceServiceClientStreamProcedure:
+		return &conformancev1.ClientStreamRequest{RequestData: data, ResponseDefinition: &conformancev1.UnaryResponseDefinition{RawResponse: rr}}
+	case conformancev1connect.ConformanceServiceServerStreamProcedure:
+		return &conformancev1.ServerStreamRequest{RequestData: data, ResponseDefinition: &conformancev1.StreamResponseDefinition{RawResponse: rr}}
+	default:
+		return &conformancev1.BidiStreamRequest{RequestData: data, ResponseDefinition: &conformancev1.StreamResponseDefinition{RawResponse: rr}}
+	}
+}
+
+func verifC17MsgSx(m proto.Message) vsx {
+	switch msg := m.(type) {
+	case *conformancev1.ClientStreamRequest:
+		return vL(vI(1), vB(msg.GetRequestData()), vBool(msg.GetResponseDefinition().GetRawResponse() != nil))
+	case *conformancev1.ServerStreamRequest:
+		return vL(vI(1), vB(msg.GetRequestData()), vBool(msg.GetResponseDefinition().GetRawResponse() != nil))
+	case *conformancev1.BidiStreamRequest:
+		return vL(vI(1), vB(msg.GetRequestData()), vBool(msg.GetResponseDefinition().GetRawResponse() != nil))
+	}
+	return vL(vS("unknown-message"))
+}
+
+// proc started script n -> (1 (outcomes) calls) the handler ran | (0 calls stored ret) it did not
+func verifC17Cache(all []vsx) vsx {
+	if len(all) != 5 {
+		return vL(vS("bad-case"))
+	}
+	args := all[1:] // all[0] is the (unused) oracle table
+	var proc string
+	switch args[0].i {
+	case 0:
+		proc = "/verif.Other/Stream"
+	case 3:
+		proc = conformancev1connect.ConformanceServiceClientStreamProcedure
+	case 4:
+		proc = conformancev1connect.ConformanceServiceServerStreamProcedure
+	case 5:
+		proc = conformancev1connect.ConformanceServiceBidiStreamProcedure
+	default:
+		return vL(vS("bad-case"))
+	}
+	n := int(args[3].i)
+	if n < 0 || n > 8 {
+		return vL(vS("bad-case"))
+	}
+	for _, x := range args[2].l {
+		if len(x.l) < 2 || x.l[0].i == 0 && x.l[1].i < 0 {
+			return vL(vS("bad-case"))
+		}
+	}
+	conn := &verifC17Conn{proc: proc, script: args[2].l, errs: map[int64]error{}}
+	rw := &rawResponseWriter{respWriter: httptest.NewRecorder()}
+	if args[1].i != 0 {
+		rw.canSendResponse() // a normal response has started
+	}
+	ctx := context.WithValue(context.Background(), rawResponseKey{}, rw)
+	called := false
+	var seen []vsx
+	next := func(_ context.Context, stream connect.StreamingHandlerConn) error {
+		called = true
+		for i := 0; i < n; i++ {
+			// the destination is dirty: Receive must replace, not merge into, its content
+			dest := verifC17StreamMsg(proc, []byte("VERIF-JUNK"), true)
+			if err := stream.Receive(dest); err != nil {
+				seen = append(seen, vL(vI(0), vI(conn.codeOf(err))))
+			} else {
+				seen = append(seen, verifC17MsgSx(dest))
+			}
+		}
+		return nil
+	}
+	err := rawResponseRecorder{}.WrapStreamingHandler(next)(ctx, conn)
+	if called {
+		if err != nil {
+			return vErr("handler-error")
+		}
+		return vL(vI(1), vL(seen...), vInt(conn.calls))
+	}
+	ret := int64(3)
+	var cerr *connect.Error
+	switch {
+	case err == nil:
+		ret = 0
+	case errors.Is(err, errNonRawResponseStarted):
+		ret = 2
+	case errors.As(err, &cerr) && cerr.Code() == connect.CodeAborted:
+		ret = 1
+	}
+	return vL(vI(0), vInt(conn.calls), vBool(rw.rawResponse() != nil), vI(ret))
 }
 
 var _ = strings.TrimSpace
